@@ -692,6 +692,67 @@ fn main() {
                 }
             }
         });
+        // length alterations of every message (bytes appended: 1, one field element, a 16- or 32-byte seed; zeros,
+        // 0xA5 or a copy of the message's own tail; bytes removed from the end): whenever both aggregators finish,
+        // the output must be valid, and an altered honest message that is accepted unchanged is counted
+        {
+            let esz = if level == bits - 1 { 32usize } else { 8 };
+            let mut lalts: Vec<(usize, i64, u8)> = vec![];
+            for (si, (_, _, _, len)) in sites.iter().enumerate() {
+                for k in [1usize, esz, 16, 32] {
+                    for fill in [0u8, 0xA5, 1] {
+                        if fill == 1 && *len < k {
+                            continue;
+                        }
+                        lalts.push((si, k as i64, fill));
+                    }
+                    if *len >= k {
+                        lalts.push((si, -(k as i64), 0));
+                    }
+                }
+            }
+            lalts.sort();
+            lalts.dedup();
+            par::for_each(lalts.len() as u64, |li| {
+                let (si, delta, fill) = lalts[li as usize];
+                let (k, r, a, _) = sites[si];
+                let tam = |kind: &str, round: usize, agg: usize, bytes: &[u8]| -> Option<Vec<u8>> {
+                    if kind == k && round == r && (agg == a || kind == "public_share" || kind == "verifier_message") {
+                        let mut o = bytes.to_vec();
+                        if delta < 0 {
+                            o.truncate(o.len().saturating_sub((-delta) as usize));
+                        } else {
+                            let n = delta as usize;
+                            let ext: Vec<u8> = if fill == 1 { o[o.len().saturating_sub(n)..].to_vec() } else { vec![fill; n] };
+                            o.extend(ext);
+                        }
+                        Some(o)
+                    } else {
+                        None
+                    }
+                };
+                run.count("evaluations", 1);
+                run.count("length_alterations", 1);
+                let label = if delta < 0 { format!("last {} bytes dropped", -delta) } else { format!("{} bytes appended (fill {})", delta, ["zeros", "own tail", "0xA5"][match fill { 0 => 0, 1 => 1, _ => 2 }]) };
+                let case = || json!({"layer": "b-length", "bits": bits, "level": level, "message": k, "round": r, "agg": a, "alteration": label});
+                match verify_report::<Pop, 32>(&vdaf, &vk, &ctx, &ap, &nonce, &ps, &shares, &VerifyOpts::tamper(&tam)) {
+                    Ok((_, tr2)) => {
+                        let sum = out_sum(level == bits - 1, &tr2.output_shares);
+                        if !valid_output(&sum) {
+                            run.fail(&format!("b/bits={bits}/level={level}/invalid_output/{k}/length"), &format!("Poplar1(bits={bits}, level {level}): {k}[round {r}, agg {a}] with {label}: both aggregators finished with output sum {:?}", sum), case());
+                        } else {
+                            // accepted with a valid output: not a violation of C04 (canonical encodings are C07's claim)
+                            run.count("length_alterations_accepted_with_valid_output", 1);
+                        }
+                    }
+                    Err(Failure { stage, msg }) => {
+                        if let Stage::Panic(w) = &stage {
+                            run.fail(&format!("b/bits={bits}/panic/{k}/{}", w.split('[').next().unwrap_or("")), &format!("Poplar1(bits={bits}): {k}[round {r}, agg {a}] with {label} made {w} panic: {msg}"), case());
+                        }
+                    }
+                }
+            });
+        }
         run.distinct_many(alts.iter().map(|(si, pos, v)| fnv(format!("b/{bits}/{level}/{si}/{pos}/{v}").as_bytes())));
         run.sample(json!({"layer": "b", "bits": bits, "level": level, "alterations": alts.len(), "finished_with_valid_output": *undetected.lock().unwrap(), "honest_output": honest_sum}));
         eprintln!("[{:.1}s] tamper bits={bits} level={level}: {} alterations", run.elapsed(), alts.len());
